@@ -12,6 +12,8 @@ CONSTANTS
   Prices <- SilentPrices
   Modes = {"fresh", "catchup"}
   Kinds = {"closed", "lost", "won", "other", "xclosed", "created", "xowner", "xownerp", "xdseq"}
+  ErrKinds = {1}
+  NfKinds = {1}
   TimeoutCfgs = {TRUE, FALSE}
 INVARIANT LNotAtEnd
 CHECK_DEADLOCK FALSE
